@@ -55,7 +55,7 @@ Definition zero_opts : opts :=
 Module F := WebpGen.Funcs.
 
 (** equality on generated field ids (always closed terms) *)
-Definition fid_eqb (a b : Z) : bool := Z.eqb a b.
+Definition fid_eqb (a b : Z) : bool := match Z.compare a b with Eq => true | _ => false end.
 Infix "=f?" := fid_eqb (at level 70, no associativity).
 
 (** Field access by the generated field ids. *)
@@ -190,30 +190,41 @@ Definition lossy_default (q : Z) : lcfg :=
   set_lint F.lfld_Quality (clampZ (fst F.lossy_quality_clamp) (snd F.lossy_quality_clamp) q)
     (fold_left (fun c p => set_lint (fst p) (snd p) c) F.lossy_default_ints zero_lcfg).
 
-(** One statement of the propagation block. *)
+Definition get_lint (g : Z) (c : lcfg) : Z :=
+  if g =f? F.lfld_Quality then cQuality c else if g =f? F.lfld_TargetSize then cTargetSize c
+  else if g =f? F.lfld_Method then cMethod c else if g =f? F.lfld_SNSStrength then cSNS c
+  else if g =f? F.lfld_FilterStrength then cFStrength c else if g =f? F.lfld_FilterSharpness then cFSharpness c
+  else if g =f? F.lfld_FilterType then cFType c else if g =f? F.lfld_Partitions then cPartitions c
+  else if g =f? F.lfld_Segments then cSegments c else if g =f? F.lfld_Pass then cPass c
+  else if g =f? F.lfld_Preprocessing then cPreprocessing c else if g =f? F.lfld_QMin then cQMin c
+  else if g =f? F.lfld_QMax then cQMax c else if g =f? F.lfld_HasAlpha then cHasAlpha c else 0.
+Definition get_lfl (g : Z) (c : lcfg) : fl := if g =f? F.lfld_TargetPSNR then cTargetPSNR c else FFin 0.
+
+(** One statement of the propagation block.  [if cond { cfg.g = opts.f }] is written as
+    [cfg.g = (if cond then opts.f else cfg.g)]. *)
 Definition apply_prop (o : opts) (c : lcfg) (r : Z * Z * F.pkind) : lcfg :=
   let '(g, f, k) := r in
   if is_float f then
     let x := get_fl f o in
     match k with
     | F.PAlways => set_lfl g x c
-    | F.PIfGe t => if fl_ge x t then set_lfl g x c else c
-    | F.PIfGt t => if fl_gt x t then set_lfl g x c else c
+    | F.PIfGe t => set_lfl g (if fl_ge x t then x else get_lfl g c) c
+    | F.PIfGt t => set_lfl g (if fl_gt x t then x else get_lfl g c) c
     | F.PRes _ _ => c
     end
   else
     let v := get_int f o in
     match k with
     | F.PAlways => set_lint g v c
-    | F.PIfGe t => if v >=? t then set_lint g v c else c
-    | F.PIfGt t => if v >? t then set_lint g v c else c
+    | F.PIfGe t => set_lint g (if v >=? t then v else get_lint g c) c
+    | F.PIfGt t => set_lint g (if v >? t then v else get_lint g c) c
     | F.PRes t d => set_lint g (resolve (t, d) v) c
     end.
 
 Definition set_dither (o : opts) (c : lcfg) : lcfg :=
   let '(mkL a b t d e f h i j k l m n p q r) := c in
-  if negb (Z.land (oPreprocessing o) F.dither_mask =? 0)
-  then mkL a b t d e f h i j k l m (Some (oQuality o)) p q r else c.
+  mkL a b t d e f h i j k l m
+      (if negb (Z.land (oPreprocessing o) F.dither_mask =? 0) then Some (oQuality o) else n) p q r.
 
 (** encodeLossyWithAlpha, from [cfg := lossy.DefaultConfig(int(opts.Quality))] to the
     hasAlpha statement; [q] = int(opts.Quality). *)
